@@ -94,6 +94,9 @@ harnesses! {
     #[kani::proof] #[kani::unwind(10)] glob_7_5 => h_glob_matches::<7, 5, _>;
     #[kani::proof] #[kani::unwind(10)] glob_6_7 => h_glob_matches::<6, 7, _>;
     #[kani::proof] #[kani::unwind(10)] glob_7_7 => h_glob_matches::<7, 7, _>;
+    #[kani::proof] #[kani::unwind(12)] glob_9_9 => h_glob_matches::<9, 9, _>;
+    #[kani::proof] #[kani::unwind(14)] glob_8_12 => h_glob_matches::<8, 12, _>;
+    #[kani::proof] #[kani::unwind(12)] replace_6_8_5 => h_glob_replace::<6, 8, 5, _>;
     #[kani::proof] #[kani::unwind(8)] replace_3_1_3 => h_glob_replace::<3, 1, 3, _>;
     #[kani::proof] #[kani::unwind(8)] replace_3_2_3 => h_glob_replace::<3, 2, 3, _>;
     #[kani::proof] #[kani::unwind(8)] replace_3_3_2 => h_glob_replace::<3, 3, 2, _>;
